@@ -65,6 +65,31 @@ CLAIMED = {
              "covered by the theorems.",
         technique="Lean 4 theorems over ported syll.rs + exhaustive table-model evaluation on impl",
         design="§4 C05"),
+    "C06": dict(
+        text='Proved over the interpreter port, for words of any length and shape: (a) a substitution/deletion/metathesis sub-rule whose input matches nowhere returns the word itself; (b) literal_absent_identity: if the input is a literal segment that does not occur in the word, the scan loop walks the whole word without capturing anything (induction on the loop) and the sub-rule returns the word unchanged for every fuel (or reports too little fuel) - never another word, an error or a panic. PARTIAL: the full-grammar statement (literal planted anywhere in any rule) is false on the pinned tree (known findings D4a, D4b, D6, D21) and is decided by the c06-spec search (planted absent literal in generated full-grammar rules, blank/comment lines) plus the model/impl correspondence.',
+        note='Trusted: Lean kernel, standard axioms (+ bv_decide certificates where the bit layer is used); the hand port of subrule.rs/rule.rs/syll.rs (Model/Interp), tied to the code on every run by the interp-ops correspondence (identical outcome class and word on ~27k generated cases quick / 400k thorough, release profile); generators and labels of the search.',
+        technique='Lean 4 loop-induction theorem on the interpreter port (fragment) + correspondence + planted-literal search',
+        design="§4 C06"),
+    "C07": dict(
+        text='Proved over the port: binding tables behave as maps (get after set, frame); a matrix with =n binds exactly the segment at the matched position; a segment variable in a context matches iff the segment there EQUALS the captured bundle (all four nodes) and a syllable variable iff segments (in matching direction), stress and tone are equal; writing a captured segment back where it was read leaves the word unchanged. PARTIAL: the end-to-end identities (X1=1..Xk=k > 1..k, [αF] > [αF], A > B / X=1 _ 1) are decided by the c07-spec search and the correspondence; stress alphas on secondary stress are the known finding D7; the structure-variable defect was repaired (fix: commit).',
+        note='Trusted: Lean kernel, standard axioms (+ bv_decide certificates where the bit layer is used); the hand port of subrule.rs/rule.rs/syll.rs (Model/Interp), tied to the code on every run by the interp-ops correspondence (identical outcome class and word on ~27k generated cases quick / 400k thorough, release profile); generators and labels of the search.',
+        technique='Lean 4 component theorems on the port + correspondence + identity search',
+        design="§4 C07"),
+    "C08": dict(
+        text='Proved for every bundle (2^40): every grapheme of cardinals.json is well formed; set_feat for every feature of the table and both polarities, adding/removing any place (sub-)node and [-place] - the only ways parser and interpreter modify a bundle - preserve SegWF (defined bits only, place not Some(0), nothing stored under an absent sub-node). PARTIAL: the word-level invariants (>=1 syllable, no empty syllable, tone shape) over rule sequences are decided by c08-spec (Word.WF on every intermediate word) and the correspondence; they are false on the pinned tree for boundaries inserted/moved at a word edge, empty structures and whole-word deletion (known findings D8a-D8d).',
+        note='Trusted: Lean kernel, standard axioms (+ bv_decide certificates where the bit layer is used); the hand port of subrule.rs/rule.rs/syll.rs (Model/Interp), tied to the code on every run by the interp-ops correspondence (identical outcome class and word on ~27k generated cases quick / 400k thorough, release profile); generators and labels of the search.',
+        technique='Lean 4 bundle well-formedness preservation theorems + correspondence + invariant search on every intermediate word',
+        design="§4 C08"),
+    "C12": dict(
+        text="Proved: the group-letter tables of the rule parser AND the alias parser, re-read from the source on every run, equal the manual's table (as matrices); Rule::apply is the left fold of SubRule::apply over the sub-rules and unbalanced lists are rejected (condensed rules = their sub-rules in sequence, by the port's definition, itself compared with the code). PARTIAL: `_,X`, optionals and `&` vs variables are decided by c12-spec (shorthand vs mechanically produced expansion, both on the implementation) - the optional's retry loop is a known finding (D12).",
+        note='Trusted: Lean kernel, standard axioms (+ bv_decide certificates where the bit layer is used); the hand port of subrule.rs/rule.rs/syll.rs (Model/Interp), tied to the code on every run by the interp-ops correspondence (identical outcome class and word on ~27k generated cases quick / 400k thorough, release profile); generators and labels of the search.',
+        technique='Lean 4 table theorem + fold theorem + shorthand/expansion search',
+        design="§4 C12"),
+    "C14": dict(
+        text="Proved over the port of syll.rs, for any run length, position and syllable: a matrix naming no length/stress/tone leaves the syllable's stress, tone and segment count unchanged and reports no length change, and touches no segment outside the run; apply_syll_mods (stress/tone setting) never touches a segment; joining and splitting syllables keep every segment in order. PARTIAL: the whole-rule statements with arbitrary environments are decided by c14-spec and the correspondence.",
+        note='Trusted: Lean kernel, standard axioms (+ bv_decide certificates where the bit layer is used); the hand port of subrule.rs/rule.rs/syll.rs (Model/Interp), tied to the code on every run by the interp-ops correspondence (identical outcome class and word on ~27k generated cases quick / 400k thorough, release profile); generators and labels of the search.',
+        technique='Lean 4 component theorems on the port + correspondence + tier-preservation search',
+        design="§4 C14"),
     "C09": dict(
         text="Proved: the renderer's exact-match phase returns a grapheme with the segment's bundle for any table order; every one of the 365 "
              "graphemes, read by the modelled longest-match word parser, yields exactly its own bundle (kernel-evaluated over the regenerated "
